@@ -126,7 +126,7 @@ func cmdVerify(args []string) {
 		for _, ob := range r.Obls {
 			stat[ob.Status]++
 			if ob.Status != "discharged" || *verbose {
-				fmt.Printf("   %-10s %-60s %s %dms  %s\n", ob.Status, ob.Name, ob.Solver, ob.Ms, ob.Desc)
+				fmt.Printf("   %-10s %-60s %s %dms  %s [%s:%d]\n", ob.Status, ob.Name, ob.Solver, ob.Ms, ob.Desc, shortFile(ob.Pos.Filename), ob.Pos.Line)
 				if ob.Static && ob.Status != "discharged" {
 					fmt.Println("      ", ob.Output)
 				}
